@@ -93,12 +93,13 @@ static void fh_del(MPI_File fh)
 static long tsize(MPI_Datatype t) { int s = 0; if (t == MPI_DATATYPE_NULL) return 0; PMPI_Type_size(t, &s); return s; }
 
 /* returns 1 when this injectable call must fail */
+static long inj_bytes = -1;
 static int inject(const char *what)
 {
     shim_inj++;
     if (shim_fault_n && shim_inj == shim_fault_n) {
         shim_fault_hit = 1;
-        snprintf(shim_fault_where, sizeof shim_fault_where, "%s", what);
+        snprintf(shim_fault_where, sizeof shim_fault_where, "%s%s", what, inj_bytes == 0 ? ":zero-length" : "");
         return 1;
     }
     return 0;
@@ -253,7 +254,7 @@ static void hull(MPI_File fh, MPI_Offset off, int count, MPI_Datatype t, int at,
     shim_nindep++; \
     if (board_active() && board_ptr()->sched_on) hull(fh, off, c, t, at, &lo, &hi); \
     board_indep(kind, lo, hi, name); \
-    bad = inject(name); \
+    inj_bytes = (long)c * tsize(t); bad = inject(name); inj_bytes = -1; \
     trace("%c%s@%lld+%ld;", kind ? 'w' : 'r', bad ? "!" : "", (long long)off, (long)c * tsize(t));
 
 int MPI_File_write_at(MPI_File fh, MPI_Offset off, const void *b, int c, MPI_Datatype t, MPI_Status *s)
@@ -268,7 +269,7 @@ int MPI_File_read(MPI_File fh, void *b, int c, MPI_Datatype t, MPI_Status *s)
 #define COLLIO_PRE(cls, name, ch) \
     int bad; \
     FCOLL(cls, 0, fh, name); \
-    bad = inject(name); \
+    inj_bytes = (long)c * tsize(t); bad = inject(name); inj_bytes = -1; \
     trace("%c%s+%ld;", ch, bad ? "!" : "", (long)c * tsize(t));
 
 int MPI_File_write_at_all(MPI_File fh, MPI_Offset off, const void *b, int c, MPI_Datatype t, MPI_Status *s)
